@@ -231,6 +231,14 @@ def do_op(op, env):
             return None, None
         zi = z.get_zone_interval(_inst(op[2]))
         return [z.id, z.get_utc_offset(_inst(op[2])).seconds, zi.name], (("cprov", op[1]), z)
+    if k == "yscan":
+        # ["yscan", calendar, first year, count]: year and month lengths of a run of years, as one answer
+        cal = P.CalendarSystem.for_id(op[1])
+        out = []
+        for y in range(op[2], op[2] + op[3]):
+            nm = cal.get_months_in_year(y)
+            out.append([y, cal.get_days_in_year(y), [cal.get_days_in_month(y, m) for m in range(1, nm + 1)]])
+        return [len(out), zlib.crc32(json.dumps(out).encode()), out[0], out[-1]], None
     if k == "plusm":
         # date arithmetic with ordinary and extreme amounts: a call that fails must not leave anything behind
         cal = P.CalendarSystem.for_id(op[1])
@@ -383,6 +391,21 @@ def do_op(op, env):
             return list(fi.get_era_names(getattr(Era, w[9:]))), None
         v = getattr(fi, w)
         return list(v) if isinstance(v, (list, tuple)) else v, None
+    if k == "dtfi":
+        # ["dtfi", culture, calendar kind or None, field]: the culture's own date/time format info, read directly
+        import importlib
+
+        from pyoda_time._compatibility._culture_info import CultureInfo
+
+        if op[2] is None:
+            ci = CultureInfo.get_culture_info(op[1])
+        else:
+            ci = CultureInfo(op[1])
+            modname, clsname = _CAL_KINDS[op[2]]
+            ci.date_time_format.calendar = getattr(importlib.import_module("pyoda_time._compatibility." + modname), clsname)()
+        d = ci.date_time_format
+        v = d.get_era_name(1) if op[3] == "era1" else getattr(d, op[3])
+        return list(v) if isinstance(v, (list, tuple)) else v, None
     if k in ("fmtcust", "namescust"):
         # a caller-customised (mutable) culture: same name as the stock one, different calendar
         import pyoda_time._compatibility as compat  # noqa: F401
@@ -531,6 +554,17 @@ def _alias_years(rng, lo, hi, n):
     return sorted(ys)
 
 
+def _alias_arith(rng, cal, y):
+    """A month addition whose intermediate target lies one validator period (131072 years) away from real years near y. In
+    the Hebrew calendars a 19-year cycle has 235 months, so 131072 years are 6898 cycles and about 10 more years."""
+    sgn = rng.choice([-1, 1])
+    if cal.startswith("Hebrew"):
+        amt = sgn * (235 * 6898 + rng.randrange(0, 260))
+    else:
+        amt = sgn * 131072 * 12 + rng.randrange(-13, 14)
+    return ["plusm", cal, y, rng.randrange(1, 13), rng.randrange(1, 29), "m", amt]
+
+
 def build_pool(master_seed, scale=1.0):
     rng = random.Random(master_seed ^ 0xC13)
     pool = {"cal": {}, "zone": {}, "prov": [], "calid": [], "text": {}, "iso": [], "names": []}
@@ -569,6 +603,21 @@ def build_pool(master_seed, scale=1.0):
                     iso_y = y if cal in ("ISO", "Gregorian", "Julian") else rng.randrange(-2000, 4000)
                     ops.append(["fromdays", cal, days_from_civil(iso_y, 1, 1) + rng.randrange(-3, 400)])
             groups.append(ops)
+        if True:
+            # a failing (or extreme) arithmetic call whose intermediate year lies exactly one validator period (131072 years:
+            # same slot AND same 7-bit validator) away from real years, with observers on the real years around it
+            for _ in range(max(1, int(2 * scale))):
+                y = rng.randrange(max(lo + 14, 14), hi - 14)
+                ops = []
+                for _k in range(6):
+                    ops.append(_alias_arith(rng, cal, y))
+                ops.append(["plusm", cal, y, rng.randrange(1, 13), 1, "y", rng.choice([-1, 1]) * 131072])
+                for _k in range(6):
+                    ops.append(["yscan", cal, y - 12, 25])  # repeated so that it is likely to be drawn
+                for j in (-1, 0, 1):
+                    ops.append(["ylen", cal, y + j])
+                    ops.append(["date", cal, y + j, rng.choice([3, 4, 9, 10]), rng.randrange(1, 29)])
+                groups.append(ops)
         if cal.startswith("Hebrew"):
             # dedicated groups around the ends of the 1024-year blocks: the Hebrew calculator also looks at the neighbouring
             # years' slots, so years 1023, 1024 and 1025 apart meet in the table
@@ -734,6 +783,10 @@ def build_pool(master_seed, scale=1.0):
             for w in ("era:common", "eranames:common", "era:anno_hegirae", "era:anno_persico", "long_month_names", "short_day_names"):
                 pool["names"].append(["namescust", cn, kind, w])
                 pool["names"].append(["names", cn, "cached", w])
+        for kind in [None] + kinds:
+            for fld in ("month_names", "abbreviated_month_names", "day_names", "abbreviated_day_names", "month_genitive_names",
+                        "long_date_pattern", "short_date_pattern", "month_day_pattern", "date_separator", "era1"):  # fmt: skip
+                pool["names"].append(["dtfi", cn, kind, fld])
         # the same caller-owned culture object re-customised over time (slot 0/1 of the calling thread)
         for slot in (0, 1):
             for kind in [None] + kinds:
@@ -819,7 +872,20 @@ def build_sweep_pairs(pool, master_seed, n_pairs):
             d = rng.choice([1023, -1023, 1025, -1025, 1024, -1024])
             if lo < y + d < hi:
                 warm = [["ylen", cb, y + d]]
+        elif rng.random() < 0.25:
+            warm = [_alias_arith(rng, cb, y)]
         add("hebrew look-ahead", warm, a, b, ["cal"])
+    for _ in range(per * 2):
+        # a failing arithmetic call (or three) as history, a broad look at the years around it afterwards
+        cal = rng.choice(["Hebrew Civil", "Hebrew Scriptural", "Hebrew Civil", rng.choice(cals)])
+        lo2, hi2 = CAL_RANGE[cal]
+        if hi2 - lo2 < 60:
+            continue
+        y = rng.randrange(max(lo2 + 14, 14), hi2 - 14)
+        warm = [_alias_arith(rng, cal, y) for _ in range(3)]
+        a = ["yscan", cal, y - 12, 25]
+        b = rng.choice([["ylen", cal, y], _alias_arith(rng, cal, y)])
+        add("failing arithmetic as history", warm, a, b, ["cal"])
     zids = list(pool["zone"])
     for _ in range(per * 3):
         zid = rng.choice(zids)
@@ -846,10 +912,24 @@ def build_sweep_pairs(pool, master_seed, n_pairs):
     for _ in range(per * 2):
         a = rng.choice(texts + names)
         cand = texts if a[0] != "names" and a[0] != "namescust" else names
-        cn = a[3] if a[0] in ("fmt", "parse", "fmtw", "fmtcust") else a[1]
-        same = [o for o in cand if (o[3] if o[0] in ("fmt", "parse", "fmtw", "fmtcust") else o[1]) == cn]
+        cn = a[3] if a[0] in ("fmt", "parse", "fmtw", "fmtcust") else a[2] if a[0] == "cobj" else a[1]
+        same = [o for o in cand if (o[3] if o[0] in ("fmt", "parse", "fmtw", "fmtcust") else o[2] if o[0] == "cobj" else o[1]) == cn]
         b = rng.choice(same) if rng.random() < 0.5 and same else rng.choice(cand)
         add("format info", rng.choice([[], [], [b]]), a, b, rng.choice([[], ["cultures"]]))
+    cust = [o for o in texts + names if o[0] in ("fmtcust", "namescust", "cobj") or (o[0] == "dtfi" and o[2] is not None)]
+    for _ in range(per * 2):
+        if not cust:
+            break
+        b = rng.choice(cust)
+        cn = b[3] if b[0] == "fmtcust" else b[1] if b[0] in ("namescust", "dtfi") else b[2]
+        stock = [o for o in texts if o[0] == "fmt" and o[3] == cn and o[4] == "cached"] + [o for o in names if o[0] == "names" and o[1] == cn]
+        stock += [o for o in names if o[0] == "dtfi" and o[1] == cn and o[2] is None] * 2
+        if not stock:
+            continue
+        a = rng.choice(stock)
+        if rng.random() < 0.5:
+            a, b = b, a
+        add("same locale, other calendar", [], a, b, rng.choice([[], ["cultures"]]))
     for _ in range(per):
         a = rng.choice(pool["iso"])
         same = [o for o in pool["iso"] if o[1] == a[1]]
@@ -883,7 +963,12 @@ def _sweep_len(pair):
     before = sum(evs.get(i, 0) for i in range(na))
     tr = (r.get("trace") or [])[before : before + n]
     hot = [i + 1 for i, (_, rel, _ln) in enumerate(tr) if rel in HOT_FILES or rel == "<lock>"]
-    return {"n": n, "hot": hot}
+    # a race window is a code location, not an event index: group the inventory-file points by (file, line)
+    by_line = {}
+    for i, (_, rel, ln) in enumerate(tr):
+        if rel in HOT_FILES or rel == "<lock>":
+            by_line.setdefault(f"{rel}:{ln}", []).append(i + 1)
+    return {"n": n, "hot": hot, "by_line": list(by_line.values())}
 
 
 def build_sweeps(pool, master_seed, n_pairs, max_hot, max_cold, workers):
@@ -891,6 +976,7 @@ def build_sweeps(pool, master_seed, n_pairs, max_hot, max_cold, workers):
     rng = random.Random(master_seed ^ 0xD1CE)
     cases = []
     exhaustive_hot = 0
+    lines_covered = 0
     lens = []
     hots = []
     dry = bootstrap.parallel_map(_sweep_len, pairs, workers, 120)
@@ -905,12 +991,24 @@ def build_sweeps(pool, master_seed, n_pairs, max_hot, max_cold, workers):
             pos = set(hot)
             exhaustive_hot += 1
         else:
-            step = len(hot) / max_hot
-            pos = {hot[int(j * step)] for j in range(max_hot)}
+            # every distinct inventory-file line at its first occurrence and at one other (seeded) occurrence, then fill up
+            pos = set()
+            groups = r.get("by_line") or []
+            for g in groups:
+                pos.add(g[0])
+            for g in groups:
+                if len(pos) >= max_hot:
+                    break
+                if len(g) > 1:
+                    pos.add(rng.choice(g[1:]))
+            lines_covered += 1 if len(pos) >= len(groups) else 0
+            rest = [i for i in hot if i not in pos]
+            if len(pos) < max_hot and rest:
+                pos |= set(rng.sample(rest, min(len(rest), max_hot - len(pos))))
         cold = [i for i in range(1, n + 1) if i not in pos]
         pos |= set(rng.sample(cold, min(len(cold), max_cold)))
         cases += [(pi, i) for i in sorted(pos)]
-    return pairs, cases, {"pairs": len(pairs), "cases": len(cases), "pairs_with_every_inventory_file_position": exhaustive_hot,
+    return pairs, cases, {"pairs": len(pairs), "cases": len(cases), "pairs_with_every_inventory_file_position": exhaustive_hot, "further_pairs_with_every_inventory_file_line": lines_covered,
                           "max_inventory_positions_per_pair": max_hot, "other_positions_sampled_per_pair": max_cold,
                           "median_points_in_A": sorted(lens)[len(lens) // 2] if lens else 0,
                           "median_inventory_points_in_A": sorted(hots)[len(hots) // 2] if hots else 0}  # fmt: skip
@@ -1050,7 +1148,7 @@ def prepare(tier, master_seed, workers):
     table.update(cold_table(parse_ops, workers))
     _TABLE = table
     global _SWEEP_PAIRS
-    _SWEEP_PAIRS, _SWEEPS, sweep_info = build_sweeps(_POOL, master_seed, n_pairs, 160 if tier != "thorough" else 600, 30 if tier != "thorough" else 100, workers)  # fmt: skip
+    _SWEEP_PAIRS, _SWEEPS, sweep_info = build_sweeps(_POOL, master_seed, n_pairs, 260 if tier != "thorough" else 900, 24 if tier != "thorough" else 100, workers)  # fmt: skip
     info = {"sweep": sweep_info, "pool_ops": len(table), "cold_oracle_s": round(time.monotonic() - t0, 2), "cultures_in_icu": len(_ALL_CULTURES),
             "cold_exceptions": sum(1 for v in table.values() if isinstance(v, list) and v[:1] == ["EXC"])}  # fmt: skip
     return info
@@ -1171,7 +1269,7 @@ def _prewarm(spec):
         P.DateTimeZone.utc  # noqa: B018
     if "cal" in w:
         for op in ops:
-            if op[0] in ("date", "ylen", "mlen", "fromdays", "dera", "calid", "eras", "erayear", "conv", "plusm"):
+            if op[0] in ("date", "ylen", "mlen", "fromdays", "dera", "calid", "eras", "erayear", "conv", "plusm", "yscan"):
                 try:
                     P.CalendarSystem.for_id(op[1])
                 except Exception:  # noqa: BLE001
@@ -1439,7 +1537,7 @@ ASSUMPTIONS = [
     "identity is required only where the statement or the API documentation promises it (provider lookups per id, CalendarSystem per id, the tzdb provider, DateTimeZone.utc); elsewhere only answers are compared",
     "the private attribute _time_zone of the caching zone and the private format-info cache are read/replaced only to build the oracle table and to shrink the cache (knob); if they disappear those parts are skipped",
 ]
-TIERS = {"quick": {"runs": 2400, "budget": 200.0}, "thorough": {"runs": 400_000, "budget": 2400.0}}
+TIERS = {"quick": {"runs": 2400, "budget": 260.0}, "thorough": {"runs": 400_000, "budget": 2400.0}}
 
 
 def main(a, boot_info):
